@@ -809,8 +809,25 @@ func udpRelayCase(t *testing.T, id int, rep *vreport, rng *vrng, ci udpCipher, d
 	c.SetStreamMode(stream)
 	c.SetNoDelay(1, 10, 2, 1)
 	c.SetWindowSize(64, 64)
+	opts := ""
+	if !directed { // session options: none of them may cost the stream a byte or a message boundary
+		wd, and, dup, mtu, rl := rng.chance(50), rng.chance(50), rng.pick(0, 0, 1, 2), rng.pick(1400, 1400, 1500, 576, 300), rng.pick(0, 0, 50<<20)
+		c.SetWriteDelay(wd)
+		c.SetACKNoDelay(and)
+		c.SetDUP(dup)
+		c.SetMtu(mtu)
+		c.SetRateLimit(uint32(rl))
+		if rng.chance(30) {
+			c.SetNoDelay(rng.pick(0, 1), rng.pick(10, 20, 40), rng.pick(0, 2), rng.pick(0, 1))
+		}
+		if rng.chance(30) {
+			c.SetWindowSize(rng.pick(2, 8, 128, 1024), rng.pick(32, 128))
+		}
+		opts = fmt.Sprintf("writeDelay=%v ackNoDelay=%v dup=%d mtu=%d rate=%d", wd, and, dup, mtu, rl)
+	}
 	replay := map[string]any{"test": "TestVerifUDPRelay", "seed": vSeed(), "case": id, "cipher": ci.name, "ds": ds, "ps": ps,
 		"drop_pct": r.drop, "dup_pct": r.dup, "hold_pct": r.hold, "stream": stream}
+	defer func() { replay["options"] = opts }()
 	total := 20000 + rng.intn(60000)
 	data := rng.bytes(total)
 	// the write plan (empty writes included: they carry nothing and must disturb nothing) and, for
@@ -818,26 +835,42 @@ func udpRelayCase(t *testing.T, id int, rep *vreport, rng *vrng, ci udpCipher, d
 	c.mu.Lock()
 	mss := int(c.kcp.mss)
 	c.mu.Unlock()
-	var plan, msgs []int
+	var plan [][]int // one entry per call: the buffer sizes handed to Write (one) / WriteBuffers (several)
+	var msgs []int
 	for off := 0; off < total; {
-		n := rng.pick(0, 1, 100, 1000, 1400, 5000)
-		if off+n > total {
-			n = total - off
+		var call []int
+		for nb := rng.pick(1, 1, 1, 2, 3); nb > 0 && off < total; nb-- {
+			n := rng.pick(0, 1, 100, 1000, 1400, 5000)
+			if off+n > total {
+				n = total - off
+			}
+			call = append(call, n)
+			for k := n; k > 0; k -= mss { // every buffer is cut into mss-sized messages of its own
+				msgs = append(msgs, min(k, mss))
+			}
+			off += n
 		}
-		plan = append(plan, n)
-		for k := n; k > 0; k -= mss {
-			msgs = append(msgs, min(k, mss))
-		}
-		off += n
+		plan = append(plan, call)
 	}
 	go func() {
 		off := 0
-		for _, n := range plan {
+		for _, call := range plan {
 			c.SetWriteDeadline(time.Now().Add(10 * time.Second))
-			if _, err := c.Write(data[off : off+n]); err != nil {
+			var err error
+			if len(call) == 1 {
+				_, err = c.Write(data[off : off+call[0]])
+				off += call[0]
+			} else {
+				var v [][]byte
+				for _, n := range call {
+					v = append(v, data[off:off+n])
+					off += n
+				}
+				_, err = c.WriteBuffers(v)
+			}
+			if err != nil {
 				return
 			}
-			off += n
 		}
 	}()
 	l.SetReadDeadline(time.Now().Add(10 * time.Second))
